@@ -21,13 +21,15 @@ Model driver for the `mutex` line protocol (C15).  One operation per input line,
   ivs <h>:<enter>:<exit>:<rows> …         -> accept | reject <i> <j> <name>      (interval monitor)
   tasks <tasks> | <controller>            -> fin          (tasks_deadlock_free/tasks_all_finish: the tasks model
         `MutexTasks.tsys`, both lock variants, run to the end by a lowest-first and a highest-first scheduler)
-  tivs <waits>;… | <h>:<enter>:<exit>:<rows> … (or `-`: none)  -> accept | reject <i> <j> <name> | early <task> <prerequisite>
+  tivs <waits>[f];… | <h>:<enter>:<exit>:<rows> … (or `-`: none)  -> accept | afterfailed <task> <prerequisite> | reject <i> <j> <name> | early <task> <prerequisite>
         interval monitor + order monitor (`MutexTasks.orderMonitor`) on the bodies recorded from the real runner
   tswap <tasks>                           -> stuck <schedule> | nostuck | unknown
         search of the swapped model (`MutexTasks.tsysSwapped`, lock map first, then wait) for a stuck state
 
-<tasks> = `;`-separated tasks `<waits>/<map>[/n]`, <waits> = `-` or `,`-separated indices of earlier tasks
-(`/n`: on the implementation the body submits a nested task that runs the probe; no difference for the model).
+<tasks> = `;`-separated tasks `<waits>/<map>[/<flags>]`, <waits> = `-` or `,`-separated indices of earlier tasks;
+flags: `f` the body fails (`Task.fails`; in `tivs` the `f` follows the wait list); `n` (on the implementation the
+body submits a nested task that runs the probe) and digits (scope group on the implementation) make no
+difference for the model.
 
 <holders> = `;`-separated lock maps, a map = `,`-separated rows `<name>:<r|w>` or `-` (empty map).
 Names are ranked byte-wise (Go string order) to obtain the model's `Name`s.
@@ -251,20 +253,22 @@ def showLocks (r : Option (List (Bytes × Bool))) : String :=
 
 /-! ### tasks layer -/
 
-def parseTask (t : String) : Option (List Nat × List (String × Bool)) :=
-  let go (w m : String) : Option (List Nat × List (String × Bool)) := do
+def parseTask (t : String) : Option (List Nat × List (String × Bool) × Bool) :=
+  let go (w m : String) (fails : Bool) : Option (List Nat × List (String × Bool) × Bool) := do
     let ws ← if w = "-" || w = "" then some [] else (w.splitOn ",").mapM String.toNat?
     let mp ← parseMap "," ":" m
-    pure (ws, mp)
+    pure (ws, mp, fails)
   match t.splitOn "/" with
-  | [w, m] => go w m
-  | [w, m, "n"] => go w m     -- `/n`: the body runs through a nested task; the same holder for the model
+  | [w, m] => go w m false
+  | [w, m, flags] =>
+    -- `n`: the body runs through a nested task, digits: scope group (no difference for the model); `f`: the body fails
+    if flags.toList.all (fun c => c == 'n' || c == 'f' || c.isDigit) then go w m (flags.toList.contains 'f') else none
   | _ => none
 
 def parseTasks (t : String) : Option (List MutexTasks.Task) := do
   let raw ← (t.trimAscii.toString.splitOn ";").mapM parseTask
-  let pool := namePool (raw.map (·.2))
-  pure (raw.map fun (ws, m) => { waits := ws, map := toLockMap pool m, fails := false })
+  let pool := namePool (raw.map (·.2.1))
+  pure (raw.map fun (ws, m, f) => { waits := ws, map := toLockMap pool m, fails := f })
 
 def tasksDone (tasks : List MutexTasks.Task) (ts : MutexTasks.TState) : Bool :=
   (List.range tasks.length).all (MutexTasks.finishedAt ts)
@@ -303,7 +307,10 @@ def runSwap (tasks : List MutexTasks.Task) : String :=
   swapSearch tasks [(MutexTasks.initSwapped tasks, [])] [] 4000
 
 def runTaskMonitor (head : String) (toks : List String) : String :=
-  let waits := (head.trimAscii.toString.splitOn ";").mapM fun w =>
+  let heads := head.trimAscii.toString.splitOn ";"
+  let fails := heads.map fun w => w.endsWith "f"
+  let waits := heads.mapM fun w =>
+    let w := if w.endsWith "f" then (w.dropEnd 1).toString else w
     if w = "-" || w = "" then some [] else (w.splitOn ",").mapM String.toNat?
   match waits, toks.mapM parseInterval with
   | some waits, some raw =>
@@ -314,7 +321,10 @@ def runTaskMonitor (head : String) (toks : List String) : String :=
     | none =>
       match MutexTasks.orderMonitor waits ivs with
       | some (i, j) => s!"early {i} {j}"
-      | none => "accept"
+      | none =>
+        match MutexTasks.failMonitor waits fails ivs with
+        | some (i, j) => s!"afterfailed {i} {j}"
+        | none => "accept"
   | _, _ => "bad-op"
 
 /-! ### main loop -/
